@@ -18,6 +18,9 @@
 (*                             TicketKeyFromBytes(key).AesKey/.HmacKey only*)
 (*   Forge {p, o}              a forged ClientSessionState offered to a    *)
 (*                             server (p: supplied, o: observed)           *)
+(*   Secret {secvia, supplied, got}  the bytes MasterSecret() returned for *)
+(*                             a state whose secret was supplied through   *)
+(*                             MakeClientSessionState / SetMasterSecret    *)
 (* Byte strings are compared here, not in the harness.                     *)
 (***************************************************************************)
 EXTENDS Tickets, TLC, Json
@@ -47,6 +50,7 @@ DoExtend == Ev.src \in 1..Len(tix) /\ Extend(Ev.src, Ev.len - tix[Ev.src].len) /
 DoDecrypt == Ev.err = "" /\ Decrypt(Ev.src, ObsRes)
 DoIndep == Indep(Ev.src, Ev.key, ObsRes)
 DoForge == ForgeOutcome(Ev.p, Ev.o) /\ UNCHANGED tkVars
+DoSecret == SecretKept(Ev.supplied, Ev.got) /\ UNCHANGED tkVars
 
 TSetKeys == Is("SetKeys") /\ DoSetKeys /\ Step
 TAdvance == Is("Advance") /\ DoAdvance /\ Step
@@ -61,8 +65,10 @@ TDecryptKeyGone == Is("Decrypt") /\ SrcOk /\ Intact(tix[Ev.src]) /\ ~Opens(tix[E
 TDecryptModified == Is("Decrypt") /\ SrcOk /\ ~Intact(tix[Ev.src]) /\ DoDecrypt /\ Step
 TIndepOpens == Is("Indep") /\ SrcOk /\ Opens(tix[Ev.src], <<Ev.key>>) /\ DoIndep /\ Step
 TIndepRefuses == Is("Indep") /\ SrcOk /\ ~Opens(tix[Ev.src], <<Ev.key>>) /\ DoIndep /\ Step
-TForgeResumed == Is("Forge") /\ Ev.o.cresumed /\ DoForge /\ Step
+TForgeResumed == Is("Forge") /\ Ev.o.cresumed /\ Ev.p.vers # TLS13 /\ DoForge /\ Step
 TForgeNotResumed == Is("Forge") /\ ~Ev.o.cresumed /\ DoForge /\ Step
+TForgeResumed13 == Is("Forge") /\ Ev.o.cresumed /\ Ev.p.vers = TLS13 /\ DoForge /\ Step
+TSecret == Is("Secret") /\ DoSecret /\ Step
 
 Explained == \/ Ev.ev = "SetKeys" /\ ENABLED DoSetKeys
              \/ Ev.ev = "Advance" /\ ENABLED DoAdvance
@@ -73,6 +79,7 @@ Explained == \/ Ev.ev = "SetKeys" /\ ENABLED DoSetKeys
              \/ Ev.ev = "Decrypt" /\ ENABLED DoDecrypt
              \/ Ev.ev = "Indep" /\ ENABLED DoIndep
              \/ Ev.ev = "Forge" /\ ENABLED DoForge
+             \/ Ev.ev = "Secret" /\ ENABLED DoSecret
 \* what the model says about the event (diagnostics only)
 Why == IF Ev.ev \in {"Decrypt", "Indep"} /\ SrcOk
        THEN LET t == tix[Ev.src]
@@ -81,6 +88,8 @@ Why == IF Ev.ev \in {"Decrypt", "Indep"} /\ SrcOk
              sameState |-> (Ev.state = t.st), implok |-> Ev.ok]
        ELSE IF Ev.ev = "Forge"
        THEN [accepted |-> TicketAccepted(Ev.p), carries |-> ResumedCarriesSupplied(Ev.p, Ev.o), completed |-> Completed(Ev.o), resumed |-> Ev.o.cresumed]
+       ELSE IF Ev.ev = "Secret"
+       THEN [suppliedlen |-> Len(Ev.supplied), gotlen |-> Len(Ev.got), secvia |-> Ev.secvia]
        ELSE [unexplained |-> Ev.ev]
 TFail == /\ l <= N /\ ~bad /\ Ev.ev # "Reset" /\ ~Explained
          /\ PrintT(<<"REJ", ToJson([id |-> id, at |-> l - base, kind |-> Ev.ev, why |-> Why])>>)
@@ -91,7 +100,7 @@ TSkip == /\ l <= N /\ bad /\ Ev.ev # "Reset"
 
 Next == TReset \/ TSetKeys \/ TAdvance \/ TEncrypt \/ TFlip \/ TTruncate \/ TExtend
         \/ TDecryptOpens \/ TDecryptKeyGone \/ TDecryptModified \/ TIndepOpens \/ TIndepRefuses
-        \/ TForgeResumed \/ TForgeNotResumed \/ TFail \/ TSkip
+        \/ TForgeResumed \/ TForgeResumed13 \/ TForgeNotResumed \/ TSecret \/ TFail \/ TSkip
 
 AtEnd == l = N + 1 \/ (l <= N /\ Ev.ev = "Reset")
 Report == /\ (AtEnd /\ l > 1 /\ ~bad) => PrintT(<<"OK", id>>)
